@@ -87,6 +87,8 @@ def run(ctx, tier, res, tag=''):
                 'verdict': 'every other bit of the 16-octet region keeps its entry value'})
     res.sample({'function': FN, 'message_octets': 2044, 'pad': 0, 'acf_msg_length': 511})
     res.extra['exhaustive'] = True
+    from .. import promises
+    promises.report(ctx, res, [FN], promises.MEMORY_KINDS, tag)
     res.rule = ('Avtp_Vss_Pad interpreted for every message length 12..2044 on an exact-extent symbolic region: final image = entry image '
                 'with acf_msg_length = ceil(L/4), pad = (4 - L mod 4) mod 4 and exactly the pad octets after the message zeroed; plus the '
                 'get/set lemmas for the dedicated VSS length accessors (all 9 bits)')
